@@ -10,8 +10,8 @@ from harness import coqfmt as cf
 PROP = "C03"
 COQ = dict(imports=["Model.Heads", "Spec.C03"], in_ty="c03_in", out_ty="c03_out",
            corr="corr_C03", decide="check_C03", model="model_C03")
-THEOREMS = ["C03_decider_sound", "C03_step", "C03_invariant", "C03_model_trace", "C03_endpoints",
-            "C03_statements_one_row", "C03_ord_irrelevant"]
+THEOREMS = ["C03_decider_sound", "C03_step", "C03_invariant", "C03_endpoints", "C03_model_from_empty", "C03_trace",
+            "C03_model_transitions"]
 TRUSTED = [
     "SQLite + SQLAlchemy execute the three bookkeeping statements (INSERT / DELETE..WHERE / UPDATE..WHERE) as the "
     "list model says; their matched-row counts are observed (cursor.rowcount) and compared on every statement",
